@@ -18,6 +18,7 @@ import (
 	"strings"
 	"time"
 
+	"verif/checks/smbhist"
 	"verif/vf"
 )
 
@@ -102,6 +103,8 @@ func run(c *vf.Ctx) {
 	p := newPool(c, reg, agg)
 	p.runAll()
 	close(agg.distinctCh)
+	// decoders fed WELL-FORMED input through a receiver that was used before (histories of depth 3 on one object)
+	smbhist.All(c, "C07/history", 3)
 	if err := <-selfErr; err != nil {
 		c.Fatalf("E5 self-test failed (worker/triage machinery does not detect a known failure): %v", err)
 	}
